@@ -236,4 +236,22 @@ Proof.
     destruct Hgen as (op & Hop & E); [intro Hx; rewrite Eola in Hx; discriminate Hx|].
     exists op. split; [exact E|exact Hop].
 Qed.
+
+(* The model of a call is a function of the keyword layers of its own chain, its func and its signal only
+   (no state between uses of a partial object or of a processor): in any history of calls every call gets what
+   the text promises for it. *)
+Definition call_ok gc (c : list kwl * F * list Qc) : Prop :=
+  let '(layers, func, sig) := c in
+  match stft_promise f1 f2 wsem gc layers func sig with
+  | PSilent => True
+  | PBlocks b => stft_model f1 f2 wsem gc layers func sig = SBlocks b None
+  | PUser id b => exists op, stft_model f1 f2 wsem gc layers func sig = SUser id op b None /\
+                             forall q, dict_get op q = spec_ola_param layers q
+  | PSamples out => stft_model f1 f2 wsem gc layers func sig = SSamples out None
+  end.
+
+Theorem stft_calls_independent gc (calls : list (list kwl * F * list Qc)) : Forall (call_ok gc) calls.
+Proof.
+  apply Forall_forall. intros [[layers func] sig] _. apply stft_model_meets_promise.
+Qed.
 End Layers.
